@@ -165,13 +165,14 @@ def pose_per_value_methods(env, cfg, ck):
 
 @contract('C09', targets=['spatialmath.pose3d.SO3.rpy', 'spatialmath.pose3d.SO3.eul', 'spatialmath.quaternion.UnitQuaternion.rpy',
                           'spatialmath.quaternion.UnitQuaternion.eul', SP + 'log'],
-          configs=product(cls=['SO3', 'SE3', 'UnitQuaternion'], m=[2, 3, 4], meth=['rpy', 'eul']))
+          configs=product(cls=['SO3', 'SE3', 'UnitQuaternion'], m=[2, 3, 4], meth=['rpy', 'eul', 'rpy-xyz-deg', 'rpy-yxz', 'eul-deg']))
 def angle_accessors_per_value(env, cfg, ck):
-    """rpy()/eul() on M values: M rows, row i = the angles of element i"""
+    """rpy()/eul() on M values, with the order and unit options: M rows, row i = the angles of element i"""
     cls, m = cfg['cls'], cfg['m']
     es = [concrete_element(env, cls, i) for i in range(m)]
     X = make(env, cls, es)
-    f = (lambda X: X.rpy()) if cfg['meth'] == 'rpy' else (lambda X: X.eul())
+    f = {'rpy': lambda X: X.rpy(), 'eul': lambda X: X.eul(), 'rpy-xyz-deg': lambda X: X.rpy(unit='deg', order='xyz'),
+         'rpy-yxz': lambda X: X.rpy(order='yxz'), 'eul-deg': lambda X: X.eul(unit='deg')}[cfg['meth']]
     per_value(ck, cfg['meth'], X, es, cls, env, f)
 
 
